@@ -220,7 +220,7 @@ def run(tier, seed):
     g.run_impl(cases, want_obs=False)
     if model_ok:
         g.run_model(cases)
-    bad, corr = [], []
+    bad, corr, outside_inflector = [], [], []
     outcomes = collections.Counter()
     ops = collections.Counter()
     for cs in cases:
@@ -231,7 +231,11 @@ def run(tier, seed):
         if cs["impl"].startswith(("panic", "crash", "timeout")) or not cs["impl"]:
             bad.append(cs)
         if model_ok and not cs.get("same_bytes"):
-            corr.append(cs)
+            # same outcome class, other bytes, and a non-ASCII name: outside the ASCII transcription of Inflector
+            if cs["impl"].startswith("ok") and (cs.get("model") or "").startswith("ok") and g.nonascii_identifier(cs):
+                outside_inflector.append(cs)
+            else:
+                corr.append(cs)
     # one dimension scaled up (namespaces with one abbreviation, forward-reference chains, thousands of components)
     scale = run_scale(scale_cases(root))
     for cs in scale:
@@ -306,6 +310,7 @@ def run(tier, seed):
         "panics_crashes_timeouts": len(bad),
         "disagreements_checked": len(cases) if model_ok else 0,
         "model_vs_impl_disagreements": len(corr),
+        "outside_inflector_transcription": len(outside_inflector),
         "scale_family": {cs["meta"]["features"]: cs["impl"][:60] for cs in scale},
         "reference_family": {cs["meta"]["features"]: cs["impl"][:60] for cs in refs},
         "fanout_probe": fan_outcome,
